@@ -497,10 +497,10 @@ func medianTimestamp(s consensus.State) time.Time {
 type GrowOpts struct {
 	Blocks    int
 	Block     BlockOpts
-	Corrupt   int  // number of corrupted twins to plant
-	ForkEvery int  // roughly one fork per this many blocks (0 = 6)
+	Corrupt   int // number of corrupted twins to plant
+	ForkEvery int // roughly one fork per this many blocks (0 = 6)
 	MinerPool []types.Address
-	LongFork  bool // allow forking far back
+	LongFork  bool     // allow forking far back
 	Kinds     []string // corruption kinds to draw from (default: all)
 }
 
